@@ -973,7 +973,9 @@ impl<'b> InnerBucket<'b> {
             self.put_leaf(Leaf::Bucket(name, meta))?;
         }
 
-        let root = self.nodes[self.page_node_ids[&self.meta.root_page] as usize].clone();
+        // The root page can be one that was never loaded as a node: rebalancing promotes the
+        // last remaining child of the old root, and that child may not have been touched.
+        let root = self.node(PageNodeID::Page(self.meta.root_page), None);
         let mut root = root.borrow_mut();
         let page_id = root
             .spill(self, tx_freelist, None)?
